@@ -184,6 +184,17 @@ var mutants = []Mutant{
 	{"C20-retry-skips-first-window", "C20", "minter-connector/minter/minter.go", `(\t\t\ttime\.Sleep\(time\.Second\)\n)\t\t\ti--\n`, "${1}\t\t\tif i > 0 {\n\t\t\t\ti--\n\t\t\t}\n", "C20.cursor", "window 0 is not retried after an API error"},
 	{"C20-recipient-normalised-first", "C20", "minter-connector/command/command.go", `(\t\tif !common\.IsHexAddress\(cmd\.Recipient\) \{\n\t\t\treturn errors\.New\("wrong recipient"\)\n\t\t\}\n)(\t\tcmd\.Recipient = common\.HexToAddress\(cmd\.Recipient\)\.Hex\(\)\n)`, "${2}${1}", "C20.validate", "recipient normalised before it is checked"},
 	{"C17-listing-by-position", "C17", "module/x/mhub2/keeper/keeper.go", `msg\.OrchestratorAddress = k\.GetExternalOrchestratorAddress\(ctx, chainId, common\.HexToAddress\(msg\.ExternalAddress\)\)\.String\(\)`, "msg.OrchestratorAddress = k.GetExternalOrchestratorAddress(ctx, chainId, common.HexToAddress(out[0].ExternalAddress)).String()", "C17.triple", "listed orchestrators looked up under another entry's address"},
+	// operators added with the rules of the fourth seeding round
+	{"C07-destination-hex2bytes", "C07", "module/x/mhub2/types/outgoing_tx.go", `txDestinations\[i\] = gethcommon\.HexToAddress\(tx\.ExternalRecipient\)`, "txDestinations[i] = gethcommon.BytesToAddress(gethcommon.Hex2Bytes(tx.ExternalRecipient[2:]))", "C07.field-map", "batch destinations decoded by cutting two characters and Hex2Bytes"},
+	{"C13-height-key-without-chain", "C13", "module/x/mhub2/keeper/external_event_vote.go", `(func \(k Keeper\) SetLastObservedExternalBlockHeight\((?s:.*?))append\(\[\]byte\{types\.LastExternalBlockHeightKey\}, chainId\.Bytes\(\)\.\.\.\)`, "${1}[]byte{types.LastExternalBlockHeightKey}", "C13.timeout-guard", "the observed external height is written under a key without the chain id"},
+	{"C19-fee-key-hex-decoded", "C19", "module/x/mhub2/types/key.go", `(func GetTxFeeRecordKey\(inTxHash string\) \[\]byte \{\n\treturn )(.*)\[\]byte\(inTxHash\)(.*)\n`, "${1}${2}common.HexToHash(inTxHash).Bytes()${3}\n", "C19.key-shape", "fee records keyed by the hex-decoded hash"},
+	{"C10-header-token-normalised", "C10", "module/x/mhub2/keeper/batch.go", `(\t\tExternalTokenId: )externalTokenId,`, "${1}fmt.Sprintf(\"%s\", externalTokenId),", "C10.own-token", "batch header token id passed through a formatting step"},
+	{"C14-coin-id-normalised", "C14", "module/x/mhub2/types/external_event.go", `\[\]byte\(bee\.ExternalCoinId\), // todo: check length \?`, "common.HexToAddress(bee.ExternalCoinId).Bytes(),", "C14.injective", "batch-executed hash ignores the spelling of the token id"},
+	{"C15-chains-filtered-in-place", "C15", "module/x/mhub2/keeper/genesis.go", `(func ExportGenesis\((?s:.*?))\tchains := k\.GetChains\(ctx\)\n`, "${1}\tchainNames := params.Chains[:0]\n\tfor _, ch := range params.Chains {\n\t\tif ch != \"hub\" {\n\t\t\tchainNames = append(chainNames, ch)\n\t\t}\n\t}\n\t_ = chainNames\n\tchains := k.GetChains(ctx)\n", "C15.export-own-state", "the chains parameter is filtered in place during export"},
+	{"C18-votes-binary-search", "C18", "module/x/oracle/keeper/attestation.go", `(?s)(import \(\n)(.*?\toperator := sval\.GetOperator\(\)\.String\(\)\n)\tfor _, vote := range att\.Votes \{\n\t\tif vote == operator \{\n\t\t\treturn att\n\t\t\}\n\t\}\n`, "${1}\t\"sort\"\n${2}\tif i := sort.SearchStrings(att.Votes, operator); i < len(att.Votes) && att.Votes[i] == operator {\n\t\treturn att\n\t}\n", "C18.distinct", "membership of the unsorted votes decided by binary search"},
+	{"C20-commit-before-count", "C20", "minter-connector/cmd/mhub-minter-connector/main.go", `(\t\t\tctx\.SetLastCheckedMinterBlock\(block\.Height\)\n)`, "${1}\t\t\tctx.Commit()\n", "C20.cursor", "the relay loop commits the block cursor before the block's events are counted"},
+	{"C16-resolver-cache", "C16", "module/x/mhub2/keeper/msg_server.go", `(?s)(import \(\n)(.*?)(func \(k Keeper\) getSignerValidator\([^\n]*\n)`, "${1}\t\"sync\"\n${2}var signerCacheM sync.Map\n\n${3}\tsignerCacheM.Store(signerString, chainId)\n", "C16.guards", "the signer resolver keeps a process-local cache"},
+	{"C11-amount-as-remainder", "C11", "module/x/mhub2/keeper/pool.go", `convertedAmount := k\.ConvertToExternalValue\(ctx, chainId, tokenInfo\.ExternalTokenId, amount\.Amount\)`, "convertedAmount := k.ConvertToExternalValue(ctx, chainId, tokenInfo.ExternalTokenId, amount.Amount.Add(fee.Amount)).Sub(k.ConvertToExternalValue(ctx, chainId, tokenInfo.ExternalTokenId, fee.Amount))", "C11.convert-truncates", "scheduled amount computed as converted total minus converted fee"},
 	{"C20-count-invalid", "C20", "minter-connector/minter/minter.go", `if cmd\.ValidateAndComplete\(value\) == nil \{`, `if cmd.ValidateAndComplete(value) == nil || true {`, "C20.counted-iff-valid", "invalid commands counted by the resync scan"},
 }
 
